@@ -60,7 +60,15 @@ def run(ctx):
             v_ins = lib.slice_back(fn, ins[0].args[2:3], through_calls=True, at=(ins[0].bb, None))
             ok = k_get.has_field('Frame', 'id') and k_ins.has_field('Frame', 'id') and any(c in v_ins.calls for c in reads)
         if ok:
-            ctx.ok('FLOW-C42b', fn, 'bytes written = bytes read for the frame with the same id', line=w.line)
+            # all reads happen before the first in-place write (payloads are buffered first)
+            interleaved = [r for r in reads if r.bb in fn.reachable(w.bb) and w.bb in fn.reachable(r.bb)]
+            if interleaved:
+                ok = False
+        if ok:
+            ctx.ok('FLOW-C42b', fn, 'bytes written = bytes read for the frame with the same id; every payload is read before the first one is rewritten', line=w.line)
+        elif any(r.bb in fn.reachable(w.bb) and w.bb in fn.reachable(r.bb) for r in reads):
+            ctx.bad('FLOW-C42b', fn, 'vacuum reads payloads in the same loop that rewrites them in place: payload offsets are not monotone in the frame id (a payload-reusing update points a later '
+                    'frame at an earlier location), so a payload can be overwritten before it is read', line=w.line, detail='read-after-inplace-write')
         else:
             ctx.bad('FLOW-C42b', fn, 'the payload written for a frame is not the payload read for that frame id', line=w.line, detail='payload-identity')
         act = None
